@@ -6,15 +6,16 @@ import json, os, shutil, subprocess, sys
 sys.path.insert(0, "/verif")
 import tools_seed
 
-def main(prop, tier="quick"):
-    wt = f"/tmp/seed/{prop}"
+def main(prop, root="/tmp/seed", offset=0, tier="quick"):
+    offset = int(offset)
+    wt = f"{root}/{prop}"
     out = os.path.join(wt, "out")
     for k in (1, 2, 3):
         patch = os.path.join(out, f"m{k}.diff")
         demo = os.path.join(out, f"m{k}_demo.py")
         if not (os.path.exists(patch) and os.path.exists(demo)):
             continue
-        sid = f"{prop}-m{k}"
+        sid = f"{prop}-m{k + offset}"
         dst = f"/verif/seeded/{sid}"
         meta = {}
         mj = os.path.join(out, f"m{k}.json")
@@ -40,4 +41,4 @@ def main(prop, tier="quick"):
         print(sid, "detection:", {p: (v["exit"], v["n_fingerprints"], v["fingerprints"][:3]) for p, v in r.items()})
 
 if __name__ == "__main__":
-    main(sys.argv[1], *(sys.argv[2:3]))
+    main(*sys.argv[1:4])
